@@ -1,14 +1,14 @@
-\* tiny scope with per-action coverage (vacuity guard): every action of the model is taken
+\* tiny scope; NotAllSeen is EXPECTED to be violated: some behaviour takes every action (vacuity guard)
 CONSTANTS
   HistMax = 1
   Probe <- ProbeP
   AsFound = {}
-  Chars = {112, 32}
-  Cmds <- SmallCmdSet
+  Chars = {112}
+  Cmds <- CovCmdSet
   Edit = TRUE
   MaxLen = 2
   MaxEnters = 2
-SPECIFICATION Spec
+SPECIFICATION CSpec
 CONSTRAINT Bound
-INVARIANTS CursorWithinLine ExecutedLineIsEditorsLine OnePromptPerEnter HistoryLast20InOrder BangAddressesExactEntry BangOutOfRangeIsError NoFault StoredLinesHaveNoReference
+INVARIANTS NotAllSeen
 CHECK_DEADLOCK FALSE
